@@ -119,7 +119,7 @@ func c05P(v int64) *int64 { return &v }
 // what the scratch file system can store (histogram only; the differential holds either way, both trees live on it)
 
 func c05ProbeStorable(r *lib.Result) {
-	dir, err := os.MkdirTemp("", "vh-c05-probe-")
+	dir, err := lib.MkScratch("vh-c05-probe-")
 	if err != nil {
 		return
 	}
